@@ -106,7 +106,8 @@ def check_case(case, ctx):
     fn = case["fn"]
     p, pm = build_checked(case["poly"])
     names = list(p.names)
-    nvars = [var_index(n) for n in names]
+    stored = [var_index(n) for n in names]   # the indeterminates in storage (name tuple) order
+    nvars = sorted(stored)                   # the monomial order refers to them in index order
     g, r = case["graded"], case["reverse"]
     fails = []
     setting = "graded=%s,reverse=%s" % (g, r)
@@ -129,6 +130,7 @@ def check_case(case, ctx):
         if got.shape != tuple(pm.shape) + (len(names),):
             return fail("shape", "shape %s expected %s" % (got.shape, tuple(pm.shape) + (len(names),)))
         for idx, (vec, _) in leads.items():
+            vec = tuple(vec[nvars.index(v)] for v in stored)  # columns follow the polynomial's own names
             if tuple(int(v) for v in got[idx]) != tuple(vec):
                 return fail("value", "element %s = %r: lead exponent %s, expected %s under %s"
                             % (idx, pm[idx], got[idx].tolist(), vec, setting))
@@ -213,7 +215,7 @@ def check_case(case, ctx):
         else:
             if list(got.names) != names[:d]:
                 return fail("names", "names %s expected %s" % (got.names, names[:d]), "shrink")
-            dropped = set(nvars[d:])
+            dropped = set(stored[d:])
             want = arr_map(lambda e: MP({k: v for k, v in e.d.items() if not any(n in dropped for n, _ in k)}), pm)
         diff = first_diff(gm, want)
         if diff:
